@@ -8,6 +8,8 @@ HERE="$(cd "$(dirname "$0")/.." && pwd)"
 PATCH="$(readlink -f "$1")"; shift
 PROPS="$*"
 if [ -z "$PROPS" ]; then PROPS=$(python3 -c "import json;print(' '.join(c['property_id'] for c in json.load(open('$HERE/MANIFEST.json'))['checks']))"); fi
+# keep the Go build cache from growing without bound (every scratch directory adds its own entries)
+if [ "$(du -sm /root/.cache/go-build 2>/dev/null | cut -f1)" -gt 40000 ] 2>/dev/null; then go clean -cache >/dev/null 2>&1; fi
 S=$(mktemp -d /tmp/verif-try.XXXXXX)
 trap 'rm -rf "$S"' EXIT
 rsync -a --exclude .git /repo/ "$S/repo/"
